@@ -34,6 +34,7 @@ PtsOne == { [D |-> 1, x |-> << <<S1(1), S1(2)>> >>] }
 OpsDrv == {"get", "set", "mul", "add", "drv"}
 OpsDrvArith == {"get", "set", "mul", "add", "sub", "div", "pow", "sum", "rev", "drv"}
 OpsCore == {"get", "set", "mul", "add"}
+OpsOtherRec == {"get", "set", "mul", "otherrec", "other"}
 OpsA5 == {"get", "seta", "dot", "mul", "rev"}
 OpsDrvC == {"get", "seta", "dot", "mul", "drv"}
 OpsH3 == {"seta", "dot", "mul", "rev", "other"}
